@@ -165,7 +165,69 @@ def build(job):
     return job
 
 
+class LazyLines:
+    """the non-JSON lines of a spilled log, read from disk on every iteration (keeps multi-GB logs of a thorough run out of memory)"""
+    def __init__(self, path):
+        self.path = path
+
+    def __iter__(self):
+        with open(self.path, errors="replace") as f:
+            for line in f:
+                line = line.strip()
+                if line and not line.startswith("{"):
+                    yield line
+
+    def discard(self):
+        try:
+            os.unlink(self.path)
+        except OSError:
+            pass
+
+
+def run_spilled(job):
+    """like run(), but the binary's stdout goes to a file; only the JSON records are kept in memory"""
+    env = dict(os.environ)
+    env.update(RUN_ENV)
+    env.update(job.env)
+    t0 = time.time()
+    d = os.path.join(CACHE, "raw")
+    os.makedirs(d, exist_ok=True)
+    path = os.path.join(d, "%s-%s-%d.log" % (job.name, job.config, os.getpid()))
+    err = ""
+    for attempt in (1, 2):
+        with open(path, "w") as fo:
+            try:
+                p = subprocess.run([job.binary], stdout=fo, stderr=subprocess.PIPE, text=True, env=env, timeout=job.timeout, errors="replace")
+                job.rc = p.returncode
+                err = p.stderr
+                break
+            except subprocess.TimeoutExpired:
+                job.rc = "timeout"
+                err = "wall-clock watchdog fired (attempt %d)" % attempt
+    job.wall = time.time() - t0
+    job.stderr = err
+    recs = []
+    done = False
+    with open(path, errors="replace") as f:
+        for line in f:
+            if not line.startswith("{"):
+                continue
+            try:
+                r = json.loads(line)
+            except Exception:
+                continue
+            if r.get("t") == "done":
+                done = True
+            recs.append(r)
+    job.records = recs
+    job.done = done
+    job.raw = LazyLines(path)
+    return job
+
+
 def run(job):
+    if getattr(job, "spill", False):
+        return run_spilled(job)
     env = dict(os.environ)
     env.update(RUN_ENV)
     env.update(job.env)
